@@ -8,6 +8,7 @@ import (
 	"math/rand"
 	"runtime"
 	"runtime/debug"
+	"sort"
 	"strings"
 	"testing"
 	"testing/synctest"
@@ -40,11 +41,15 @@ type RunResult struct {
 	Finished   bool           `json:"finished"`
 	NonTrivial bool           `json:"nontrivial"`
 	Panic      string         `json:"panic,omitempty"`
+	Parked     []string       `json:"parked,omitempty"`
+	Stacks     string         `json:"-"`
 
 	choices []Choice
 	events  []Event
 	draws   []uint64
 }
+
+var DumpStacks bool
 
 type prngReader struct{ r *rand.Rand }
 
@@ -96,6 +101,11 @@ func RunOne(t *testing.T, cfg *Config, follow []Choice, strict bool) *RunResult 
 				go w.runClient(n, byClient[n], sim)
 			}
 			w.Run()
+			if DumpStacks && !w.finished {
+				buf := make([]byte, 1<<22)
+				n := runtime.Stack(buf, true)
+				res.Stacks = string(buf[:n])
+			}
 			w.finalChecks(sim)
 			w.endRun()
 		})
@@ -114,6 +124,11 @@ func RunOne(t *testing.T, cfg *Config, follow []Choice, strict bool) *RunResult 
 	res.Notes = w.notes
 	res.Finished = w.finished
 	res.choices = w.choices
+	for k, p := range w.parked {
+		en := p.enabled == nil || p.enabled()
+		res.Parked = append(res.Parked, fmt.Sprintf("%s enabled=%v stalled=%v", k, en, p.stalled))
+	}
+	sort.Strings(res.Parked)
 	res.draws = w.drawTrace
 	res.events = w.events
 	h := sha256.New()
@@ -163,6 +178,7 @@ func (w *World) finalChecks(sim *Sim) {
 	if w.diverged != "" || len(w.violations) > 0 {
 		return
 	}
+	w.stopOnViol = false
 	w.or.finalChecks(w)
 	_ = context.Background
 }
